@@ -328,8 +328,8 @@ pub mod verif_hooks {
     /// Process-global trace sink (see `src/verif_trace.rs`).
     pub mod trace {
         pub use crate::verif_trace::{
-            disable, enable, is_enabled, note, perturb, set_yield_seed, snapshot, take,
-            thread_ordinal,
+            disable, enable, is_enabled, note, perturb, set_struct_tracing, set_yield_seed,
+            snapshot, take, thread_ordinal,
         };
     }
     pub use crate::zalsa_local::verif_hooks as edges;
